@@ -13,8 +13,17 @@
 //   pack <mode> np=P shift=S extra=K : kind/ty/[src]/[dst] kind/ty/[src]/[dst] ...
 //   tmap <ty> np=P count=C lay=[..]
 //   misc np=P                       rank/size of world, self, the stand-in; barrier codes; refused point-to-point calls
+//   hist np=P : <op line>;<op line>;...   a call history executed in ONE process: dune-common keeps lazily created
+//                                   singletons (one MPI_Op per (element type, functor), one MPI_Datatype per type), so
+//                                   what a call does may depend on the calls before it.  Every step is a complete op
+//                                   line of one of the kinds above; the answer lists the steps' answers, "a ; b ; c".
+//                                   Reductions with *generic* functors (one functor type applicable to many element
+//                                   types: std::plus<>, std::multiplies<>, std::bit_xor<>, GMin, GMax, Left, Right =
+//                                   gsum gprod gxor gmin gmax left right) are generated inside histories only, always
+//                                   with at least two element types per functor, so that a failure replays in a fresh
+//                                   process.
 //
-// "light" element types (uchar short ushort uint ulong float ldouble cfloat cldouble llong pod) exercise the rest
+// "light" element types (uchar short ushort uint ulong float ldouble cfloat cldouble llong pod ...) exercise the rest
 // of the ComposeMPITraits table and the byte-wise fallback datatype; they are instantiated for reductions
 // (sc/ip/io), bcast.ptr, gatherv.ptr, allgather.ptr, MPIPack scalars/vectors and the typemap decoding only.
 #include <config.h>
@@ -300,6 +309,26 @@ template <> struct TT<FVP> {
   static FVP from(const cell* c) { FVP v; v[0] = TT<PairLC>::from(c); v[1] = TT<PairLC>::from(c + 2); return v; }
   static std::vector<int> comm() { return {0, 1, 2, 3}; }
 };
+// second members of the template families FieldVector<K,n> and std::pair<T1,T2>: same K as fv3 with another n, same n as
+// fvp with another K; same T1 as pair with another T2 (a handle cached per family or per part of the arguments shows)
+using FV2 = Dune::FieldVector<int, 2>;
+using PairIS = std::pair<int, short>;
+template <> struct TT<FV2> {
+  static constexpr int E = 2;
+  static constexpr bool trueScalar = false, intrinsic = false, light = true;
+  static const char* name() { return "fv2"; }
+  static void to(const FV2& x, cell* c) { for (int i = 0; i < 2; ++i) c[i] = x[i]; }
+  static FV2 from(const cell* c) { FV2 v; for (int i = 0; i < 2; ++i) v[i] = (int)c[i]; return v; }
+  static std::vector<int> comm() { return {0, 1}; }
+};
+template <> struct TT<PairIS> {
+  static constexpr int E = 2;
+  static constexpr bool trueScalar = true, intrinsic = false, light = true;
+  static const char* name() { return "pairis"; }
+  static void to(const PairIS& x, cell* c) { c[0] = x.first; c[1] = x.second; }
+  static PairIS from(const cell* c) { return PairIS((int)c[0], (short)c[1]); }
+  static std::vector<int> comm() { return {0, 1}; }
+};
 using Big40 = Dune::bigunsignedint<40>;   // 3 digits, 40 is not a multiple of the digit width
 struct Big40Acc : Dune::Impl::numeric_limits_helper<Big40> {
   static std::uint16_t& d(Big40& x, std::size_t i) { return Dune::Impl::numeric_limits_helper<Big40>::digit(x, i); }
@@ -368,11 +397,13 @@ template <class F> bool withType(const std::string& ty, F&& f) {
   else if (ty == "ppair") f(Tag<PPair>{});
   else if (ty == "fvp") f(Tag<FVP>{});
   else if (ty == "big40") f(Tag<Big40>{});
+  else if (ty == "fv2") f(Tag<FV2>{});
+  else if (ty == "pairis") f(Tag<PairIS>{});
   else return false;
   return true;
 }
 static bool isLightName(const std::string& ty) {
-  static const std::vector<std::string> L = {"uchar", "short", "ushort", "uint", "ulong", "float", "ldouble", "cfloat", "cldouble", "llong", "pod", "ppair", "fvp", "big40"};
+  static const std::vector<std::string> L = {"uchar", "short", "ushort", "uint", "ulong", "float", "ldouble", "cfloat", "cldouble", "llong", "pod", "ppair", "fvp", "big40", "fv2", "pairis"};
   return std::find(L.begin(), L.end(), ty) != L.end();
 }
 struct TyInfo { int E; std::vector<int> comm; };
@@ -402,6 +433,25 @@ struct Aff {  // (a,b,c) = the map x -> a*x+b (mod 1009) applied c times over; c
   }
 };
 
+// generic functors: ONE functor type that can be applied to many element types (the element type is not part of the
+// functor's type, unlike std::plus<T> / Dune::Min<T>) -- together with std::plus<>, std::multiplies<>, std::bit_xor<>
+struct GMin { template <class T> T operator()(const T& a, const T& b) const { return b < a ? b : a; } };
+struct GMax { template <class T> T operator()(const T& a, const T& b) const { return a < b ? b : a; } };
+struct Left { template <class T> T operator()(const T& a, const T&) const { return a; } };    // associative, not commutative
+struct Right { template <class T> T operator()(const T&, const T& b) const { return b; } };   // associative, not commutative
+static bool isGenericFun(const std::string& fn) {
+  return fn == "gsum" || fn == "gprod" || fn == "gmin" || fn == "gmax" || fn == "gxor" || fn == "left" || fn == "right";
+}
+// the named reduction a generic functor computes
+static std::string plainFun(const std::string& fn) {
+  if (fn == "gsum") return "sum";
+  if (fn == "gprod") return "prod";
+  if (fn == "gmin") return "min";
+  if (fn == "gmax") return "max";
+  if (fn == "gxor") return "xor";
+  return fn;
+}
+
 // which functors exist for which type
 template <class T, class F> bool withFun(const std::string& fn, F&& f) {
   constexpr bool lightArith = std::is_same_v<T, unsigned char> || std::is_same_v<T, short> || std::is_same_v<T, unsigned short> ||
@@ -409,7 +459,26 @@ template <class T, class F> bool withFun(const std::string& fn, F&& f) {
                               std::is_same_v<T, long double> || std::is_same_v<T, long long>;
   constexpr bool cplx = std::is_same_v<T, Cplx> || std::is_same_v<T, CplxF> || std::is_same_v<T, CplxL>;
   constexpr bool arith = std::is_same_v<T, int> || std::is_same_v<T, long> || std::is_same_v<T, double> || lightArith;
-  if constexpr (arith || cplx || std::is_same_v<T, FV3> || std::is_same_v<T, Big> || std::is_same_v<T, Big40>)
+  constexpr bool fvi = std::is_same_v<T, FV3> || std::is_same_v<T, FV2>;
+  constexpr bool big = std::is_same_v<T, Big> || std::is_same_v<T, Big40>;
+  constexpr bool bits = std::is_same_v<T, int> || std::is_same_v<T, long> || std::is_same_v<T, unsigned char> ||
+                        std::is_same_v<T, unsigned short> || std::is_same_v<T, unsigned int> || std::is_same_v<T, unsigned long>;
+  // generic functors (types without tail padding that MPI does not see: the callback copies whole objects)
+  if constexpr (arith || cplx || fvi || big)
+    if (fn == "gsum") { f(Tag<std::plus<>>{}); return true; }
+  if constexpr (arith || cplx || big)
+    if (fn == "gprod") { f(Tag<std::multiplies<>>{}); return true; }
+  if constexpr (arith || big) {
+    if (fn == "gmin") { f(Tag<GMin>{}); return true; }
+    if (fn == "gmax") { f(Tag<GMax>{}); return true; }
+  }
+  if constexpr (bits)
+    if (fn == "gxor") { f(Tag<std::bit_xor<>>{}); return true; }
+  if constexpr (arith || cplx || fvi || big || std::is_same_v<T, Pod>) {
+    if (fn == "left") { f(Tag<Left>{}); return true; }
+    if (fn == "right") { f(Tag<Right>{}); return true; }
+  }
+  if constexpr (arith || cplx || fvi || big)
     if (fn == "sum") { f(Tag<std::plus<T>>{}); return true; }
   if constexpr (arith || cplx || std::is_same_v<T, Big> || std::is_same_v<T, Big40>)
     if (fn == "prod") { f(Tag<std::multiplies<T>>{}); return true; }
@@ -417,7 +486,7 @@ template <class T, class F> bool withFun(const std::string& fn, F&& f) {
     if (fn == "first") { f(Tag<First>{}); return true; }
   if constexpr (std::is_same_v<T, FV3>)
     if (fn == "aff") { f(Tag<Aff>{}); return true; }
-  if constexpr (arith || std::is_same_v<T, Big> || std::is_same_v<T, Big40> || std::is_same_v<T, PairIC> || std::is_same_v<T, PairLC>) {
+  if constexpr (arith || big || std::is_same_v<T, PairIC> || std::is_same_v<T, PairLC> || std::is_same_v<T, PairIS>) {
     if (fn == "min") { f(Tag<Dune::Min<T>>{}); return true; }
     if (fn == "max") { f(Tag<Dune::Max<T>>{}); return true; }
   }
@@ -434,8 +503,25 @@ static std::vector<std::string> funsOf(const std::string& ty) {
     return {"sum", "prod", "min", "max"};
   if (ty == "complex" || ty == "cfloat" || ty == "cldouble") return {"sum", "prod"};
   if (ty == "fv3") return {"sum", "cwmax", "aff", "aff"};
-  if (ty == "pair" || ty == "pairlc") return {"min", "max"};
+  if (ty == "pair" || ty == "pairlc" || ty == "pairis") return {"min", "max"};
+  if (ty == "fv2") return {"sum"};
   return {};
+}
+// element types a generic functor is applied to
+static std::vector<std::string> typesOfGeneric(const std::string& fn) {
+  std::vector<std::string> arith = {"int", "long", "double", "uchar", "short", "ushort", "uint", "ulong", "float", "ldouble", "llong"};
+  std::vector<std::string> v;
+  auto add = [&](std::initializer_list<const char*> l) { for (auto x : l) v.push_back(x); };
+  if (fn == "gxor") return {"int", "long", "uchar", "ushort", "uint", "ulong"};
+  v = arith;
+  add({"big96", "big40"});
+  if (fn == "gmin" || fn == "gmax") return v;
+  add({"complex", "cfloat", "cldouble"});
+  if (fn == "gprod") return v;
+  add({"fv3", "fv2"});
+  if (fn == "gsum") return v;
+  add({"pod"});
+  return v;  // left, right
 }
 
 // ------------------------------------------------------------------------------------------------------------------
@@ -531,13 +617,15 @@ static void xfer(const TyInfo& ti, const Cells& src, size_t sElem, Cells& dst, s
 }
 static const unsigned __int128 MASK96 = (((unsigned __int128)1) << 96) - 1;
 static const unsigned __int128 MASK48 = (((unsigned __int128)1) << 48) - 1;  // bigunsignedint<40> keeps 3 full digits
-static Cells redElem(const std::string& ty, const std::string& fn, const Cells& a, const Cells& b) {
+static Cells redElem(const std::string& ty, const std::string& fn0, const Cells& a, const Cells& b) {
   Cells r(a.size());
+  const std::string fn = plainFun(fn0);
   auto lexLess = [](const Cells& x, const Cells& y) { return std::lexicographical_compare(x.begin(), x.end(), y.begin(), y.end()); };
   if ((ty == "complex" || ty == "cfloat" || ty == "cldouble") && fn == "prod") return {a[0] * b[0] - a[1] * b[1], a[0] * b[1] + a[1] * b[0]};
-  if (fn == "first") return a;
+  if (fn == "first" || fn == "left") return a;
+  if (fn == "right") return b;
   if (fn == "aff") return {(a[0] * b[0]) % 1009, (b[0] * a[1] + b[1]) % 1009, a[2] + b[2]};
-  if (ty == "pair" || ty == "pairlc") return fn == "min" ? (lexLess(b, a) ? b : a) : (lexLess(a, b) ? b : a);
+  if (ty == "pair" || ty == "pairlc" || ty == "pairis") return fn == "min" ? (lexLess(b, a) ? b : a) : (lexLess(a, b) ? b : a);
   for (size_t i = 0; i < a.size(); ++i) {
     if (ty == "big96" || ty == "big40") {
       unsigned __int128 x = (unsigned __int128)a[i], y = (unsigned __int128)b[i];
@@ -1209,11 +1297,11 @@ struct Layout { std::vector<long> lay; Blocks comm; long size; };
 template <class T> Layout layoutOf() {
   Layout L;
   L.size = (long)sizeof(T);
-  if constexpr (std::is_same_v<T, FV3>) {
-    FV3 v(0);
+  if constexpr (std::is_same_v<T, FV3> || std::is_same_v<T, FV2>) {
+    T v(0);
     long d = (long)((char*)&v[0] - (char*)&v);
-    L.lay = {d, 3, (long)sizeof(int)};
-    L.comm = {{d, 3 * (long)sizeof(int)}};
+    L.lay = {d, (long)T::dimension, (long)sizeof(int)};
+    L.comm = {{d, (long)T::dimension * (long)sizeof(int)}};
   } else if constexpr (std::is_same_v<T, Big>) {
     Big x(0u);
     Blocks b = changedBytes(x, [](Big& y) { y = ~y; });  // all 96 bits flip
@@ -1226,6 +1314,9 @@ template <class T> Layout layoutOf() {
     L.comm = b;
   } else if constexpr (std::is_same_v<T, PairIC>) {
     L.lay = {(long)offsetof(PairIC, first), (long)sizeof(int), (long)offsetof(PairIC, second), 1, (long)sizeof(PairIC)};
+    L.comm = {{L.lay[0], L.lay[1]}, {L.lay[2], L.lay[3]}};
+  } else if constexpr (std::is_same_v<T, PairIS>) {
+    L.lay = {(long)offsetof(PairIS, first), (long)sizeof(int), (long)offsetof(PairIS, second), (long)sizeof(short), (long)sizeof(PairIS)};
     L.comm = {{L.lay[0], L.lay[1]}, {L.lay[2], L.lay[3]}};
   } else if constexpr (std::is_same_v<T, PairLC>) {
     L.lay = {(long)offsetof(PairLC, first), (long)sizeof(long long), (long)offsetof(PairLC, second), 1, (long)sizeof(PairLC)};
@@ -1371,11 +1462,13 @@ static Result execMisc(const std::string& line) {
 // ------------------------------------------------------------------------------------------------------------------
 // executor
 // ------------------------------------------------------------------------------------------------------------------
-static Result exec(const std::string& line) {
+static Result execHist(const std::string& line);
+static Result exec(const std::string& line, bool nested) {
   Result r;
   try {
     auto toks = words(line);
     if (toks.empty()) throw std::runtime_error("empty op");
+    if (toks[0] == "hist" && !nested) return execHist(line);
     if (toks[0] == "coll") return execColl(line);
     if (toks[0] == "p2p") return execP2p(line);
     if (toks[0] == "pack") return execPack(line);
@@ -1394,12 +1487,48 @@ static Result exec(const std::string& line) {
   }
   return r;
 }
+static Result execTop(const std::string& line) { return exec(line, false); }
+
+// a call history in one process: every step is executed whatever the steps before it did (all ranks stay in step);
+// the verdict is the first step whose oracle fails
+static std::string trimmed(const std::string& s) {
+  size_t a = s.find_first_not_of(' '), b = s.find_last_not_of(' ');
+  return a == std::string::npos ? "" : s.substr(a, b - a + 1);
+}
+static Result execHist(const std::string& line) {
+  int size;
+  MPI_Comm_size(MPI_COMM_WORLD, &size);
+  Result res;
+  size_t c = line.find(" :");
+  if (c == std::string::npos) throw std::runtime_error("no ' :'");
+  auto toks = words(line.substr(0, c));
+  if (std::stoi(kv(toks, "np")) != size) { res.impl = "ERR:ranks"; res.oracle = "ok trivial"; return res; }
+  std::vector<std::string> steps;
+  for (auto& p : split(line.substr(c + 2), ';')) { std::string t = trimmed(p); if (!t.empty()) steps.push_back(t); }
+  bool anyOk = false;
+  std::string fail;
+  for (size_t i = 0; i < steps.size(); ++i) {
+    Result r = exec(steps[i], true);
+    res.impl += (i ? " ; " : "") + r.impl;
+    if (r.oracle == "ok") anyOk = true;
+    if (fail.empty() && r.oracle.rfind("ok", 0) != 0) {
+      auto w = words(steps[i]);
+      std::string what = w.size() >= 4 ? w[0] + " " + w[1] + " " + w[2] + " " + w[3] : steps[i].substr(0, 40);
+      fail = "FAIL step " + std::to_string(i + 1) + " of " + std::to_string(steps.size()) + " (" + what + "): " +
+             (r.oracle.rfind("FAIL ", 0) == 0 ? r.oracle.substr(5) : r.oracle);
+    }
+  }
+  stat("hist");
+  stat("hist_steps", (long)steps.size());
+  res.oracle = !fail.empty() ? fail : (anyOk ? "ok" : "ok trivial");
+  return res;
+}
 
 // ------------------------------------------------------------------------------------------------------------------
 // generator
 // ------------------------------------------------------------------------------------------------------------------
 static const std::vector<std::string> ELEM_TYPES = {"int", "long", "double", "complex", "fv3", "big96", "pair", "pairlc", "ip", "pli"};
-static const std::vector<std::string> LIGHT_TYPES = {"uchar", "short", "ushort", "uint", "ulong", "float", "ldouble", "cfloat", "cldouble", "llong", "pod", "ppair", "fvp", "big40"};
+static const std::vector<std::string> LIGHT_TYPES = {"uchar", "short", "ushort", "uint", "ulong", "float", "ldouble", "cfloat", "cldouble", "llong", "pod", "ppair", "fvp", "big40", "fv2", "pairis"};
 
 static cell rnd128(Rng& g, int bits) {
   unsigned __int128 v = ((unsigned __int128)g.next() << 64) | g.next();
@@ -1460,6 +1589,8 @@ static Cells genElem(Rng& g, const std::string& ty, const std::string& purpose) 
   if (ty == "char") return {pickInt(g, -128, 127)};
   if (ty == "complex") return {intLike(-P53, P53, P53 / 16, 11), intLike(-P53, P53, P53 / 16, 11)};
   if (ty == "fv3") { Cells c; for (int i = 0; i < 3; ++i) c.push_back(intLike(INT_MIN, INT_MAX, INT_MAX / 8, 6)); return c; }
+  if (ty == "fv2") { Cells c; for (int i = 0; i < 2; ++i) c.push_back(intLike(INT_MIN, INT_MAX, INT_MAX / 8, 6)); return c; }
+  if (ty == "pairis") return {pickInt(g, INT_MIN, INT_MAX), pickInt(g, -32768, 32767)};
   if (ty == "big96") {
     switch (g.below(6)) {
       case 0: return {0};
@@ -1501,20 +1632,25 @@ static int genLen(Rng& g) { static const int L[] = {0, 1, 1, 2, 2, 3, 4, 5}; ret
 // long reductions cost the Lean driver about a second each: a budget per run (set from --cases in gen())
 static long g_longLeft = -1;
 
-static std::string genColl(Rng& g, int P) {
+// steps of a history are generated with some choices fixed: element type, reduction functor ("" = free), kind of
+// collective ("red", "xfer" = anything but a reduction, "" = free); no long reductions inside histories
+struct Force { std::string ty, fn, base; };
+static std::string genColl(Rng& g, int P, const Force* force = nullptr) {
   Case k;
   k.comm = g.below(10) < 6 ? "world" : (g.coin() ? "seq" : "self");
   bool light = g.coin(1, 4);
   // a dedicated stream of reductions with associative, non-commutative user functors on the world communicator
-  bool forceNc = P >= 2 && g.below(20) == 0;
+  bool forceNc = !force && P >= 2 && g.below(20) == 0;
   if (forceNc) { light = false; k.comm = "world"; }
+  if (force) { light = isLightName(force->ty); if (g.coin(3, 4)) k.comm = "world"; }
   if (light && k.comm == "seq") k.comm = "self";
   bool world = k.comm == "world", seq = k.comm == "seq";
   k.ty = light ? g.pick(LIGHT_TYPES) : g.pick(ELEM_TYPES);
   if (forceNc) k.ty = g.coin() ? "int" : "fv3";
-  bool trueScalar = k.ty != "fv3" && k.ty != "fvp";
+  if (force) k.ty = force->ty;
+  bool trueScalar = k.ty != "fv3" && k.ty != "fvp" && k.ty != "fv2";
   bool intr = k.ty == "int" || k.ty == "long" || k.ty == "double" || k.ty == "complex";
-  if (light) intr = !(k.ty == "llong" || k.ty == "pod" || k.ty == "ppair" || k.ty == "fvp" || k.ty == "big40");
+  if (light) intr = !(k.ty == "llong" || k.ty == "pod" || k.ty == "ppair" || k.ty == "fvp" || k.ty == "big40" || k.ty == "fv2" || k.ty == "pairis");
   int np = world ? P : 1;
   k.root = (int)g.below(P);
   k.n = genLen(g);
@@ -1526,10 +1662,12 @@ static std::string genColl(Rng& g, int P) {
   std::vector<std::string> bases = {"red", "red", "red", "red", "bcast", "gather", "gatherv", "gatherv", "scatter", "scatterv", "scatterv", "allgather", "allgatherv", "allgatherv"};
   if (light) bases = {"red", "red", "red", "red", "bcast", "gather", "gatherv", "scatter", "scatterv", "allgather", "allgatherv"};
   if (g.below(60) == 0) bases = {"barrier"};
+  if (force && force->base == "xfer") bases.erase(std::remove(bases.begin(), bases.end(), std::string("red")), bases.end());
   std::string base = g.pick(bases);
-  if (forceNc) base = "red";
+  if (forceNc || (force && (force->base == "red" || !force->fn.empty()))) base = "red";
   auto funs = funsOf(k.ty);
   if (forceNc) funs = {k.ty == "int" ? "first" : "aff"};
+  if (force && !force->fn.empty()) funs = {force->fn};
   if (base == "red" && funs.empty()) base = "gatherv";
   std::string form = "ptr";
   if (base == "red") {
@@ -1538,23 +1676,25 @@ static std::string genColl(Rng& g, int P) {
     if (fn == "sum" || fn == "prod" || fn == "min" || fn == "max") { forms.push_back("sc"); forms.push_back("ar"); }
     if (!light && (intr || trueScalar)) { forms.push_back("iio"); forms.push_back("iip"); if (!seq) forms.push_back("rv"); }
     if (light) forms = {"sc", "ip", "io"};
+    if (light && isGenericFun(fn)) forms = {"ip", "io"};
     form = g.pick(forms);
     bool namedFn = fn == "sum" || fn == "prod" || fn == "min" || fn == "max";
     if (form == "sc" || (!(intr && namedFn) && (form == "iio" || form == "iip" || form == "rv"))) k.n = 1;
     if (form == "iio" || form == "iip" || form == "rv") k.pad = 0;
     k.op = "red." + fn + "." + form;
-    std::string purpose = (fn == "sum" || fn == "prod" || fn == "xor" || fn == "aff") ? fn : "any";
+    const std::string pf = plainFun(fn);
+    std::string purpose = (pf == "sum" || pf == "prod" || pf == "xor" || pf == "aff") ? pf : "any";
     // Open MPI 4.1 evaluates MPI_MIN/MPI_MAX on MPI_UNSIGNED_LONG with a signed comparison (reproduced with a bare
     // MPI_Allreduce, not dune-common's doing): keep those operands below 2^63
     if (k.ty == "ulong" && purpose == "any") purpose = "half";
     // long arrays for user functors (everything that is not a predefined MPI_Op): MPI switches to other reduction
     // algorithms (ring, segmented) beyond ~10 kB, where operand order and bracketing differ from the short case
-    bool userOp = !(namedFn && (intr || (light && k.ty != "llong")));
-    if (userOp && world && P >= 2 && (form == "ip" || form == "io") && g_longLeft > 0 && g.coin(1, forceNc ? 3 : 8)) {
+    bool userOp = !(namedFn && intr);
+    if (!force && userOp && world && P >= 2 && (form == "ip" || form == "io") && g_longLeft > 0 && g.coin(1, forceNc ? 3 : 8)) {
       --g_longLeft;
       // just beyond 10 kB per contribution (Open MPI's switch from recursive doubling to the ring algorithm)
       // (MPI counts the bytes of the typemap, not the extent: 5 for pair<int,char>, 9 for pair<long long,char>)
-      int bytes = k.ty == "fv3" || k.ty == "big96" ? 12 : (k.ty == "pair" ? 5 : (k.ty == "llong" ? 8 : (k.ty == "pairlc" ? 9 : (k.ty == "big40" ? 6 : 4))));
+      int bytes = k.ty == "fv3" || k.ty == "big96" ? 12 : (k.ty == "pair" ? 5 : (k.ty == "llong" || k.ty == "fv2" ? 8 : (k.ty == "pairlc" ? 9 : (k.ty == "big40" || k.ty == "pairis" ? 6 : 4))));
       k.n = 10400 / bytes + (int)g.range(0, 300);
       if (k.ty == "int" && fn != "sum" && fn != "prod") purpose = fn == "xor" ? "smallnn" : "small";  // short op lines
     }
@@ -1685,23 +1825,78 @@ static std::string genPack(Rng& g, int P) {
   return os.str();
 }
 
+static const std::vector<std::string> TMAP_TYPES = {"int", "long", "double", "char", "complex", "fv3", "big96", "pair", "pli", "ip",
+                                                    "uchar", "short", "ushort", "uint", "ulong", "float", "ldouble", "cfloat", "cldouble", "llong", "pod", "pairlc", "ppair", "fvp", "big40", "fv2", "pairis"};
+template <class T> static std::vector<T> shuffled(Rng& g, std::vector<T> v) {
+  for (size_t i = v.size(); i > 1; --i) std::swap(v[i - 1], v[g.below(i)]);
+  return v;
+}
+// call histories aimed at the per-type singletons:
+//   0  one generic functor, 2..4 different element types           (MPI_Op shared between element types?)
+//   1  one element type on the user-op path, 2..4 typed functors   (MPI_Op shared between functors of a type?)
+//   2  one family of library types (FieldVector<K,n>, bigunsignedint<k>, pair<T1,T2>, byte fallback, index types):
+//      typemap decodes and data movement of 2..4 members          (MPI_Datatype shared within a template family?)
+//   3  any 2..4 op lines
+static std::string genHist(Rng& g, int P) {
+  std::vector<std::string> steps;
+  int mode = (int)g.below(20);
+  mode = mode < 9 ? 0 : (mode < 13 ? 1 : (mode < 17 ? 2 : 3));
+  int k = (int)g.range(2, 4);
+  if (mode == 0) {
+    static const std::vector<std::string> GF = {"gsum", "gsum", "gprod", "gmin", "gmax", "gxor", "left", "left", "right", "right"};
+    std::string fn = g.pick(GF);
+    auto tys = shuffled(g, typesOfGeneric(fn));
+    for (int i = 0; i < k; ++i) { Force f{tys[i % tys.size()], fn, "red"}; steps.push_back(genColl(g, P, &f)); }
+    if (g.coin(1, 3)) { Force f{tys[0], fn, "red"}; steps.push_back(genColl(g, P, &f)); }  // and the first type once more
+  } else if (mode == 1) {
+    static const std::vector<std::string> UT = {"big96", "big40", "fv3", "pair", "pairlc", "pairis", "llong", "int"};
+    std::string ty = g.pick(UT);
+    auto funs = funsOf(ty);
+    std::sort(funs.begin(), funs.end());
+    funs.erase(std::unique(funs.begin(), funs.end()), funs.end());
+    funs = shuffled(g, funs);
+    for (int i = 0; i < k; ++i) { Force f{ty, funs[i % funs.size()], "red"}; steps.push_back(genColl(g, P, &f)); }
+  } else if (mode == 2) {
+    static const std::vector<std::vector<std::string>> FAM = {{"fv3", "fv2", "fvp"}, {"big96", "big40"}, {"pair", "pairlc", "ppair", "pairis"},
+                                                              {"llong", "pod"}, {"pli", "ip"}, {"fv3", "fv2", "fvp"}, {"pair", "pairlc", "ppair", "pairis"}};
+    auto fam = shuffled(g, g.pick(FAM));
+    for (int i = 0; i < k; ++i) {
+      const std::string& ty = fam[i % fam.size()];
+      if (g.coin(1, 3)) steps.push_back(tmapLine(ty, (int)g.range(1, 4)));
+      else { Force f{ty, "", "xfer"}; steps.push_back(genColl(g, P, &f)); }
+    }
+  } else {
+    for (int i = 0; i < k; ++i) {
+      int w = (int)g.below(10);
+      if (w < 5) steps.push_back(genColl(g, P));
+      else if (w < 7) steps.push_back(genP2p(g, P));
+      else if (w < 9) steps.push_back(genPack(g, P));
+      else steps.push_back(tmapLine(g.pick(TMAP_TYPES), (int)g.range(1, 4)));
+    }
+  }
+  stat("hist_mode_" + std::to_string(mode));
+  std::string line = "hist np=" + std::to_string(P) + " : ";
+  for (size_t i = 0; i < steps.size(); ++i) line += (i ? ";" : "") + steps[i];
+  return line;
+}
+
 static std::string gen(Rng& g, long i, const Args& a) {
   int P;
   MPI_Comm_size(MPI_COMM_WORLD, &P);
-  static const std::vector<std::string> TM = {"int", "long", "double", "char", "complex", "fv3", "big96", "pair", "pli", "ip",
-                                              "uchar", "short", "ushort", "uint", "ulong", "float", "ldouble", "cfloat", "cldouble", "llong", "pod", "pairlc", "ppair", "fvp", "big40"};
+  const std::vector<std::string>& TM = TMAP_TYPES;
   if (g_longLeft < 0) g_longLeft = 10 + a.cases / 300;
   if (i < (long)TM.size()) return tmapLine(TM[i], 1 + (int)(i % 3));
   if (i == (long)TM.size()) return "misc np=" + std::to_string(P);
   int w = (int)g.below(100);
   if (w < 1) return "misc np=" + std::to_string(P);
   if (w < 3) return tmapLine(g.pick(TM), (int)g.range(1, 4));
-  if (w < 70) return genColl(g, P);
-  if (w < 82) return genP2p(g, P);
-  return genPack(g, P);
+  if (w < 62) return genColl(g, P);
+  if (w < 73) return genP2p(g, P);
+  if (w < 88) return genPack(g, P);
+  return genHist(g, P);
 }
 
 int main(int argc, char** argv) {
   Dune::MPIHelper::instance(argc, argv);
-  return runMpi(argc, argv, gen, exec);
+  return runMpi(argc, argv, gen, execTop);
 }
